@@ -64,6 +64,16 @@ class Pair:
         shutil.rmtree(self.root, ignore_errors=True)
 
 
+def no_sync(ans):
+    """an answer line with the fsync calls removed from its trace: a process crash (C03) loses nothing that was written
+    and append-only / fresh-id discipline (C14) is not about durability, so when and in which order files are synced is
+    not an observable of those properties (it is of C09)"""
+    if " | T" not in ans:
+        return ans
+    head, t = ans.split(" | T", 1)
+    return head + " | T " + " ".join(c for c in t.strip().split(" ") if c and not c.startswith("s:"))
+
+
 def calls_of(ans):
     """logical calls listed after `| T` in an answer line"""
     if " | T" not in ans:
@@ -207,7 +217,7 @@ def run_c14(rep, tier, seed):
                 problem = problem or ("oracle", f"`{l[:50]}` failed", li, "ok", a)
         if not problem:
             for li, (a, b) in enumerate(zip(i2, m2)):
-                if lines[li] != "hazard" and a != b:
+                if lines[li] != "hazard" and no_sync(a) != no_sync(b):
                     problem = ("correspondence", "the file-system call trace / files of the real code differ from the model's", li, b, a)
                     break
         rep.cov["traces_validated_against_impl"] += 1
@@ -229,7 +239,7 @@ def run_c14(rep, tier, seed):
                         for c in calls_of(a):
                             if mon2.feed(c):
                                 return problem[0] == "oracle"
-                    return problem[0] == "correspondence" and a2 != b2
+                    return problem[0] == "correspondence" and [no_sync(x) for x in a2] != [no_sync(x) for x in b2]
                 small = minimise(h, meta, fails)
                 h3 = Hist(h.name, h.cfg, small)
                 l3, t3 = trace_script(h3, meta)
@@ -282,10 +292,10 @@ def run_c14(rep, tier, seed):
                 nv += 1
                 if nv <= 3:
                     rep.violation("oracle", dict(what=bad[0] + " (after recovering the directory left by a crash)", script=ls, failing_line=bad[1], observed=bad[2], impl_answers=a2))
-            elif a2 != b2:
+            elif [no_sync(x) for x in a2] != [no_sync(x) for x in b2]:
                 nv += 1
                 if nv <= 3:
-                    d = next(i for i in range(ln) if a2[i] != b2[i])
+                    d = next(i for i in range(ln) if no_sync(a2[i]) != no_sync(b2[i]))
                     rep.violation("correspondence", dict(what="after a crash image the real code and the model diverge", script=ls, failing_line=d, expected=b2[d][:800], observed=a2[d][:800]))
             rep.nontrivial(["c14c", ls])
     rep.cov["rule"] = ("seeded workloads of put/del/merge/reopen (sync none/always, all max_file_size and merge presets) under the LD_PRELOAD recorder: every call on a store file is checked "
@@ -492,7 +502,7 @@ def life_after_crash(rep, tier, rng, prop, h, meta, lines, tags, root, compare_m
                              if bad[3] is None else "known: deleted key resurrected by merge + restart/crash", script2, len(lines) + bad[0], bad[1], bad[2], bad[3]))
         elif compare_model:
             for t in range(len(tail)):
-                if tail[t] != "hazard" and a2[t] != m2b[t]:
+                if tail[t] != "hazard" and no_sync(a2[t]) != no_sync(m2b[t]):
                     problems.append(("correspondence", "real code and model diverge in a life after the crash", script2, len(lines) + t, m2b[t], a2[t], None))
                     break
     finally:
@@ -531,11 +541,12 @@ def run_cut_property(rep, tier, seed, prop, loss):
             rep.cov["evaluations"] += len(lines)
             rep.count("workloads")
             rep.count("merges", sum(1 for o in h.ops if o[0] == "merge"))
-            broken = died is not None or impl != model
+            cmp = (lambda x: x) if loss else no_sync
+            broken = died is not None or [cmp(x) for x in impl] != [cmp(x) for x in model]
             if broken:
                 nv += 1
                 if nv <= 3:
-                    d = next((i for i in range(min(len(impl), len(model))) if impl[i] != model[i]), len(impl))
+                    d = next((i for i in range(min(len(impl), len(model))) if cmp(impl[i]) != cmp(model[i])), len(impl))
                     rep.violation("correspondence" if died is None else "oracle",
                                   dict(what="the file-system call trace of the workload differs from the model's (before any crash)" if died is None else f"harness died ({died.why})",
                                        script=lines, failing_line=d, expected=model[d][:800] if d < len(model) else None, observed=impl[d][:800] if d < len(impl) else None))
